@@ -1725,10 +1725,10 @@ impl Value {
                     Some(Value::make_iterable(move || {
                         if let Some(iter) = iter.lock().unwrap().take() {
                             if let ObjectRepr::Map = repr {
-                                Box::new(iter.map(|(k, _)| k))
+                                Box::new(iter.rev().map(|(k, _)| k))
                                     as Box<dyn Iterator<Item = Value> + Send + Sync>
                             } else {
-                                Box::new(iter.map(Value::from))
+                                Box::new(iter.rev().map(Value::from))
                                     as Box<dyn Iterator<Item = Value> + Send + Sync>
                             }
                         } else {
